@@ -101,6 +101,11 @@ func indexFor(k int) *sIndex {
 				}
 			}
 			f.toks = append(f.toks, sTok{field, fmt.Sprintf("v%d", a), ls})
+			if field == "ft" {
+				for _, d := range decos {
+					f.toks = append(f.toks, sTok{field, fmt.Sprintf("v%s%d", d, a), ls})
+				}
+			}
 		}
 	}
 	sIndexCache[k] = f
